@@ -4105,9 +4105,14 @@ theorem onFullyWritten_out (e e3 : Engine) (hw : e.onFullyWritten = some e3) (ho
         unfold Engine.startAckTimeout
         rw [show (e1.setOp { o with pingBase := some e.now }).op? o.id = some { o with pingBase := some e.now } from hlook2]
         simp only [Option.bind_some]
-        cases hu : o.user.bind (·.2) with
+        cases hu : Op.ackTimeout { o with pingBase := some e.now } with
         | none => exact h2
         | some t =>
+          have hu : o.user.bind (·.2) = some t := by
+            unfold Op.ackTimeout at hu
+            split at hu
+            · cases hu
+            · exact hu
           simp only []
           show Big [] [] { (e1.setOp { o with pingBase := some e.now }).view with noTimeouts := ((e1.setOp { o with pingBase := some e.now }).timeouts ++ [(o.id, (e1.setOp { o with pingBase := some e.now }).now + t)]).isEmpty }
           refine h2.setNoTimeouts _ ?_
